@@ -42,7 +42,6 @@ use crate::timing::TimestampProvider;
 use crate::ws::{Message, WebSocket};
 use alloc::boxed::Box;
 use bytes::Bytes;
-use core::future::poll_fn;
 use hashbrown::HashMap;
 use rand::Rng;
 use rand::rngs::SmallRng;
@@ -136,12 +135,12 @@ pub struct Multiplexor<R = SmallRng> {
     /// and it should stop processing.
     dropped_flows_tx: mpsc::UnboundedSender<DroppedFlow>,
     /// Channel of received datagram frames for processing.
-    datagram_rx: Mutex<mpsc::Receiver<Datagram>>,
+    datagram_rx: tokio::sync::Mutex<mpsc::Receiver<Datagram>>,
     /// Channel for a `Multiplexor` to receive newly
     /// established streams after the peer requests one.
-    con_recv_stream_rx: Mutex<mpsc::Receiver<MuxStream>>,
+    con_recv_stream_rx: tokio::sync::Mutex<mpsc::Receiver<MuxStream>>,
     /// Channel for `Bnd` requests.
-    bnd_request_rx: Option<Mutex<mpsc::Receiver<BindRequest<'static>>>>,
+    bnd_request_rx: Option<tokio::sync::Mutex<mpsc::Receiver<BindRequest<'static>>>>,
     /// Number of retries to find a suitable flow ID
     /// See [`config::Options`] for more details.
     max_flow_id_retries: usize,
@@ -239,9 +238,9 @@ impl<R: Rng + Send> Multiplexor<R> {
             tx_msg_tx: tx_msg_tx.clone(),               // cheap
             flows: flows.clone(),                       // cheap
             dropped_flows_tx: dropped_flows_tx.clone(), // cheap
-            datagram_rx: Mutex::new(datagram_rx),
-            con_recv_stream_rx: Mutex::new(con_recv_stream_rx),
-            bnd_request_rx: bnd_request_rx.map(Mutex::new),
+            datagram_rx: tokio::sync::Mutex::new(datagram_rx),
+            con_recv_stream_rx: tokio::sync::Mutex::new(con_recv_stream_rx),
+            bnd_request_rx: bnd_request_rx.map(tokio::sync::Mutex::new),
             max_flow_id_retries: options.max_flow_id_retries,
             rwnd: options.rwnd,
             rng: Mutex::new(rng),
@@ -329,7 +328,13 @@ impl<R: Rng + Send> Multiplexor<R> {
     /// be lost.
     #[tracing::instrument(skip(self), level = "debug")]
     pub async fn accept_stream_channel(&self) -> Result<MuxStream> {
-        poll_fn(|cx| self.con_recv_stream_rx.lock().poll_recv(cx))
+        // Concurrent callers queue on the async mutex. Polling the receiver from several
+        // tasks would not do: it keeps only the last waker, so a caller could sleep on while
+        // a stream is waiting (the others having taken theirs and left).
+        self.con_recv_stream_rx
+            .lock()
+            .await
+            .recv()
             .await
             .ok_or(Error::Closed)
     }
@@ -345,7 +350,11 @@ impl<R: Rng + Send> Multiplexor<R> {
     #[tracing::instrument(skip(self), level = "debug")]
     #[inline]
     pub async fn get_datagram(&self) -> Result<Datagram> {
-        poll_fn(|cx| self.datagram_rx.lock().poll_recv(cx))
+        // See `accept_stream_channel` about concurrent callers
+        self.datagram_rx
+            .lock()
+            .await
+            .recv()
             .await
             .ok_or(Error::Closed)
     }
@@ -416,9 +425,8 @@ impl<R: Rng + Send> Multiplexor<R> {
     #[tracing::instrument(skip(self), level = "debug")]
     pub async fn next_bind_request(&self) -> Result<BindRequest<'static>> {
         if let Some(rx) = self.bnd_request_rx.as_ref() {
-            poll_fn(|cx| rx.lock().poll_recv(cx))
-                .await
-                .ok_or(Error::Closed)
+            // See `accept_stream_channel` about concurrent callers
+            rx.lock().await.recv().await.ok_or(Error::Closed)
         } else {
             Err(Error::UnsupportedOperation)
         }
